@@ -102,15 +102,29 @@ def goodbye(ctx: Any) -> List[Ob]:
     call = [c for c in walk_local_ordered(gsb.node) if isinstance(c, ast.Call) and call_name(c) == '_add_broadcast_answer']
     obs.append(ob(R, gsb, call[0] if call else '_add_broadcast_answer', 'the TTL and address choice reach the record builders', len(call) == 1 and [norm(a) for a in call[0].args[1:]] == gsb.params[1:4]))
     # unregister all
-    ga = zc.methods['generate_unregister_all_services']
-    call = [c for c in walk_local_ordered(ga.node) if isinstance(c, ast.Call) and call_name(c) == '_add_broadcast_answer']
-    ok_a = len(call) == 1 and len(call[0].args) == 3 and prog.try_fold(ga.module, call[0].args[2]) == (True, 0)
-    obs.append(ob(R, ga, call[0] if call else '_add_broadcast_answer', 'closing withdraws every service with TTL 0, addresses included', ok_a))
+    obs.append(closing_goodbye_obligation(ctx, R))
     ua = zc.methods['async_unregister_all_services']
     loops = [n for n in walk_local_ordered(ua.node) if isinstance(n, ast.For)]
     ok_u = len(loops) == 1 and isinstance(loops[0].iter, ast.Call) and norm(loops[0].iter.args[0]) == '_REGISTER_BROADCASTS' and any(isinstance(c, ast.Call) and call_name(c) == 'async_send' for c in ast.walk(loops[0]))
     obs.append(ob(R, ua, 'for i in range(_REGISTER_BROADCASTS): ... self.async_send(out)', 'the closing goodbye is sent three times', ok_u))
     return obs
+
+
+def closing_goodbye_obligation(ctx: Any, R: str) -> Ob:
+    """At close every registered service is withdrawn with TTL 0, its own address and NSEC records included (address sets and
+    the NSEC record are per service, also when services share a host name)."""
+    prog = ctx.prog
+    ga = prog.cls(ZC).methods['generate_unregister_all_services']
+    call = [c for c in walk_local_ordered(ga.node) if isinstance(c, ast.Call) and call_name(c) == '_add_broadcast_answer']
+    ok_a = len(call) == 1 and prog.try_fold(ga.module, call[0].args[2]) == (True, 0) if call and len(call[0].args) >= 3 else False
+    why = ''
+    if ok_a and len(call[0].args) + len(call[0].keywords) > 3:
+        extra = (list(call[0].args[3:]) + [k.value for k in call[0].keywords])[0]
+        okx, vx = prog.try_fold(ga.module, extra)
+        if not (okx and vx is True):
+            ok_a = False
+            why = f'the address / NSEC records are added conditionally (`{norm(extra)[:60]}`)'
+    return ob(R, ga, call[0] if call else '_add_broadcast_answer', 'closing withdraws every service with TTL 0, addresses included', ok_a, why)
 
 
 def _deferred_stores(ctx: Any) -> Dict[str, str]:
